@@ -24,12 +24,15 @@ def run(ctx, report):
     )
     regs = {r.key: r for r in facts.registrations()}
     r_same = report.rule("R09-same", floor=19, what="validate accepts exactly the digits compute produces (all probes, all other digit values rejected)")
-    for cc in NAT.COMPUTING:
+    from ..par import replay, run_recorded
+
+    def same_body(cc, rules):
+        r_same = rules["R09-same"]
         r = regs.get(f"{cc}:default")
         if r is None or cc not in reg.countries:
             r_same.instance({"country": cc, "registered": False})
             r_same.finding(f"{cc}:unregistered", f"no algorithm registered for {cc}", None)
-            continue
+            return
         it = facts.interp()
         obj = it.instantiate(r.cls, [], {}, None)
         acc = accepts_of(it, obj)
@@ -67,11 +70,15 @@ def run(ctx, report):
             r_same.finding(f"{cc}:agreement", f"{r.cls.qualname}: {mism[1]} for {cc} fields { {c: mism[0].get(c, '') for c in acc} }", r.where,
                            witness={c: mism[0].get(c, "") for c in acc})
 
+    for recs, _ in run_recorded(["R09-same"], same_body, list(NAT.COMPUTING)):
+        replay({"R09-same": r_same}, recs)
+
     r_rb = report.rule("R09-readback", floor=100, what="from_components -> accessors -> from_components reproduces the BBAN; unassigned positions are the zero filler")
     r_nat = report.rule("R09-built-valid", floor=100, what="a BBAN built from components passes the BBAN-level national check")
     countries = [cc for cc in sorted(reg.countries) if reg.positions(cc) and struct_positions(reg, cc)]
-    nbad = 0
-    for cc in countries:
+    def readback_body(cc, rules):
+        r_rb, r_nat = rules["R09-readback"], rules["R09-built-valid"]
+        nbad = 0
         fields = country_fields(reg, cc)
         n = reg.countries[cc]["bban_length"]
         for salt in (0, 4):
@@ -98,7 +105,7 @@ def run(ctx, report):
             same = res2[0] == "ret" and res2[1] == b1
             if not same or not filler_ok:
                 nbad += 1
-                if nbad <= 4:
+                if nbad <= 2:
                     what = f"rebuilding from the components read back gives {_s(res2)}" if not same else "positions outside every component are not the zero filler"
                     r_rb.finding(f"{cc}:roundtrip", f"{cc}: BBAN {b1!r} built from {vals}: {what}", h.bban.methods["from_components"].where, witness={"country": cc, **vals})
             # components read back must equal what was supplied (padded)
@@ -106,7 +113,7 @@ def run(ctx, report):
                 a, b, _ = fields[c]
                 if comps[1].get(c) != v.zfill(b - a):
                     nbad += 1
-                    if nbad <= 4:
+                    if nbad <= 2:
                         r_rb.finding(f"{cc}:{c}", f"{cc}: supplied {c}={v!r} reads back as {comps[1].get(c)!r}", h.bban.where, witness={"country": cc, **vals})
             if cc in NAT.VERDICT:
                 # CZ, SK, IS keep no separately computed check digits: arbitrary components need not be nationally valid
@@ -117,15 +124,19 @@ def run(ctx, report):
                 r_nat.finding(f"{cc}:built-invalid", f"{cc}: BBAN {b1!r} built by from_components does not pass the national check ({_s(ok)}): computing and validating disagree",
                               h.bban.methods["validate_national_checksum"].where, witness={"country": cc, **vals})
 
+    for recs, _ in run_recorded(["R09-readback", "R09-built-valid"], readback_body, countries):
+        replay({"R09-readback": r_rb, "R09-built-valid": r_nat}, recs, cap=8)
+
     # ------------------------------------------------------------------ R09-funnel
     r_f = report.rule("R09-funnel", floor=15, what="for every country with computed national digits, whatever BBAN.random returns was produced by from_components (by evaluation)")
     f = h.bban.methods.get("random")
     fc = h.bban.methods.get("from_components")
     if f is None or fc is None:
         raise AnalysisError("anchor vanished: BBAN.random / BBAN.from_components")
-    for cc in NAT.COMPUTING:
+    def funnel_body(cc, rules):
+        r_f = rules["R09-funnel"]
         if cc not in reg.countries or not reg.positions(cc):
-            continue
+            return
         outs = _explore_random_funnel(ctx, h.bban, fc, cc, False) + _explore_random_funnel(ctx, h.bban, fc, cc, True)
         rets = [o for o in outs if o.kind == "return"]
         bypass = []
@@ -141,6 +152,9 @@ def run(ctx, report):
             shown = repr(v.strval) if isinstance(v, Obj) else repr(v)
             r_f.finding("BBAN.random:bypass", f"BBAN.random({cc!r}) can return a value ({shown[:80]}) that was not produced by from_components "
                         "(no padding, guards or national check digits)", f.where)
+
+    for recs, _ in run_recorded(["R09-funnel"], funnel_body, list(NAT.COMPUTING)):
+        replay({"R09-funnel": r_f}, recs)
     for cc in NAT.COMPUTING:
         if cc in reg.countries and not reg.positions(cc):
             r_f.finding(f"{cc}:positions", f"{cc} has a national algorithm but publishes no positions: random BBANs bypass it", None)
